@@ -400,7 +400,13 @@ def f_iban_decomp(a):
                 raise AssertionError("IBAN/BBAN accessor disagree")
             return enc(x)
         parts.append(guard(both))
-    parts.append(guard(lambda: enc(str(IBAN.from_bban(o.country_code, o.bban, allow_invalid=True)))))
+    def reassembled():
+        x = IBAN.from_bban(o.country_code, o.bban, allow_invalid=True)
+        y = _outcome(lambda: IBAN.from_bban(o.country_code, str(o.bban), allow_invalid=True))
+        if y[0] != "OK" or str(y[2]) != str(x):
+            raise AssertionError("from_bban differs between the BBAN object and its text")
+        return enc(str(x))
+    parts.append(guard(reassembled))
     return " / ".join(parts)
 
 
